@@ -3,7 +3,6 @@ package main
 import (
 	"errors"
 	"fmt"
-	"os"
 	"os/signal"
 	"strings"
 	"syscall"
@@ -98,68 +97,7 @@ func ReplayC16Report() {
 	s.frCheckNative(s.runNative())
 }
 
-// ---- write atomicity over a model of the file system ----
-
-type c16Disk struct {
-	content map[string][]byte
-	handles map[*os.File]string
-	ops     int
-	crashAt int
-}
-
-var c16FS *c16Disk
-
-type c16Crash struct{}
-
-func (d *c16Disk) step() {
-	d.ops++
-	if d.ops == d.crashAt {
-		panic(c16Crash{})
-	}
-}
-
-func StubC16OpenFile(name string, flag int, perm os.FileMode) (*os.File, error) {
-	d := c16FS
-	d.step()
-	if nd.Bool("openErr") {
-		return nil, errors.New("open " + name + ": permission denied")
-	}
-	if flag&os.O_TRUNC != 0 {
-		d.content[name] = nil
-	}
-	f := new(os.File)
-	d.handles[f] = name
-	d.step()
-	return f, nil
-}
-
-func StubC16FileWrite(f *os.File, b []byte) (int, error) {
-	d := c16FS
-	name := d.handles[f]
-	n := len(b)
-	if nd.Bool("shortWrite") {
-		n = nd.Choose("written", len(b)) // 0 .. len-1 bytes persisted
-	}
-	d.content[name] = append(d.content[name], b[:n]...)
-	d.step()
-	if n < len(b) {
-		return n, errors.New("write " + name + ": file too large")
-	}
-	return n, nil
-}
-
-func StubC16FileClose(f *os.File) error {
-	c16FS.step()
-	return nil
-}
-
-func StubC16Rename(oldpath, newpath string) error {
-	d := c16FS
-	d.step()
-	d.content[newpath] = d.content[oldpath]
-	delete(d.content, oldpath)
-	return nil
-}
+// ---- write atomicity over the file-system model of the F-R skeleton (common/fr_fs.go) ----
 
 // VerifC16Atomic: after a run in which the write of a file fails, is cut
 // short or is interrupted at any point, the file holds its original bytes or
@@ -169,15 +107,17 @@ func VerifC16Atomic() {
 	e := frEnv
 	e.opts = &options{Patches: []string{"p.patch"}}
 	e.opts.Args.Patterns = []string{"."}
-	c16FS = &c16Disk{content: map[string][]byte{e.names[0]: e.content[0]}, handles: map[*os.File]string{}}
-	c16FS.crashAt = nd.Choose("crashAt", 8) // 0 = no crash
+	frDisk, frHandles, frTemps = nil, nil, nil
+	disk := frDiskInit()
+	disk.allowShort, disk.allowOpen = true, true
+	disk.crashAt = nd.Choose("crashAt", nd.Param("CRASHPOINTS", 12)) // 0 = no crash
 	nd.Assume(e.match[0][0].set == false)
 	cmd := frCmd()
 	crashed := false
 	func() {
 		defer func() {
 			if r := recover(); r != nil {
-				if _, ok := r.(c16Crash); !ok {
+				if _, ok := r.(frCrash); !ok {
 					panic(r)
 				}
 				crashed = true
@@ -186,7 +126,7 @@ func VerifC16Atomic() {
 		cmd.Run(nil)
 	}()
 	_ = crashed
-	got := c16FS.content[e.names[0]]
+	got := disk.content[e.names[0]]
 	want := append([]byte{'I'}, e.newBytes[0]...)
 	nd.Assert(nd.Or(frBytesEq(got, e.content[0]), frBytesEq(got, want)),
 		"file 0: neither original nor complete new content after a failed or interrupted write")
